@@ -199,9 +199,26 @@ def run(ctx, canary=False):
                         ctx.violation("call %d on a used engine differs from a fresh engine with the same arguments: %s" % (k + 1, d),
                                       dict(info, failing_call=k + 1), {"kind": "history"})
                         break
-                # models handed out earlier must still answer as they did
+                # models handed out earlier must still answer as they did - after later estimate calls and after the caller's own
+                # read-only uses of them (bulk queries, record generation with another row count)
                 stale = None
+                if k % 2 == 1:
+                    for hm, _ in handed + [(model, cur)]:
+                        try:
+                            import contextlib, io
+                            with contextlib.redirect_stdout(io.StringIO()), np.errstate(all="ignore"):
+                                np.random.seed(11)
+                                if float(hm.total) >= 1:
+                                    hm.synthetic_data(rows=3, method="round")
+                                    hm.synthetic_data(rows=2, method="sample")
+                        except Exception:
+                            pass
+                    d0 = same(answers(model), cur)
+                    if d0:
+                        stale = "model returned by call %d changed after records were generated from it: %s" % (k + 1, d0)
                 for j, (hm, hs) in enumerate(handed):
+                    if stale:
+                        break
                     d = same(answers(hm), hs)
                     if d:
                         stale = "model returned by call %d changed after call %d: %s" % (j + 1, k + 1, d)
@@ -217,18 +234,32 @@ def run(ctx, canary=False):
             import traceback; info["traceback"] = traceback.format_exc()[-1500:]
             ctx.violation("estimate history raised %r" % ex, info, {"kind": "crash"})
     # warm start converges to the same optimum as a cold start (grown / changed lists)
-    nw = 40 if thorough else 3
-    for _ in range(nw):
-        a, b = rng.choice(["M1", "M3", "M1y"]), rng.choice(["M2", "M1", "M1q"])
+    nw = 40 if thorough else 8
+    for i_ in range(nw):
+        if i_ % 2 == 0:
+            a, b = rng.choice(["M1", "M3", "M1y"]), rng.choice(["M2", "M1", "M1q"])
+            zeros = {}
+        else:
+            # changed (not merely grown) lists with structural zeros on (a,b): the clique that absorbed the zeros in the first call
+            # is not a clique of the second model
+            a, b = rng.choice(["M1", "Cb", "M2"]), rng.choice(["M3", "Cc", "Ca", "M4"])
+            zeros = dict(ZEROS)
         s = rng.choice(["MD", "RDA", "IG"])
-        info = {"warm_same_optimum": [a, b], "solver": s}
+        info = {"warm_same_optimum": [a, b], "solver": s, "zeros": {",".join(k_): v_ for k_, v_ in zeros.items()}}
         ctx.case(json.dumps(info), nontrivial=True)
         try:
             it = 2000
-            w = fresh_engine(True, it, {})
+            w = fresh_engine(True, it, dict(zeros))
             E.quiet(w.estimate, [tuple(m) for m in L[a]], total=40.0, engine=s)
             mw = E.quiet(w.estimate, [tuple(m) for m in L[b]], total=40.0, engine=s)
-            mc = E.quiet(fresh_engine(False, it, {}).estimate, [tuple(m) for m in L[b]], total=40.0, engine=s)
+            mc = E.quiet(fresh_engine(False, it, dict(zeros)).estimate, [tuple(m) for m in L[b]], total=40.0, engine=s)
+            for zc, cells in zeros.items():
+                for nm_, mdl in (("warm", mw), ("cold", mc)):
+                    tab = np.asarray(mdl.project(zc).values, dtype=float)
+                    mass = sum(float(tab[tuple(c_)]) for c_ in cells)
+                    if not (mass <= 1e-9 * 40.0):
+                        ctx.violation("%s start: mass %.3g on the structurally impossible cells %s of %s after the second call" % (nm_, mass, cells, zc),
+                                      info, {"kind": "warm_optimum"})
             meas = [(None if m[0] is None else (m[0].toarray() if sparse.issparse(m[0]) else m[0]), m[1], m[2], tuple(m[3]) if not isinstance(m[3], str) else (m[3],)) for m in L[b]]
             lw, lc = E.l2_loss_of_model(mw, meas), E.l2_loss_of_model(mc, meas)
             if abs(lw - lc) > 1e-4 * max(1.0, lc):
